@@ -329,6 +329,10 @@ func (b *band) GetRX1DataRateIndex(uplinkDR, rx1DROffset int) (int, error) {
 }
 
 func (b *band) GetTXPowerOffset(txPower int) (int, error) {
+	if txPower < 0 {
+		return 0, errors.New("lorawan/band: invalid tx-power")
+	}
+
 	if txPower > len(b.txPowerOffsets)-1 {
 		return 0, errors.New("lorawan/band: invalid tx-power")
 	}
@@ -354,6 +358,10 @@ func (b *band) AddChannel(frequency uint32, minDR, maxDR int) error {
 }
 
 func (b *band) GetUplinkChannel(channel int) (Channel, error) {
+	if channel < 0 {
+		return Channel{}, errors.New("lorawan/band: invalid channel")
+	}
+
 	if channel > len(b.uplinkChannels)-1 {
 		return Channel{}, errors.New("lorawan/band: invalid channel")
 	}
@@ -397,6 +405,10 @@ func (b *band) GetUplinkChannelIndexForFrequencyDR(frequency uint32, dr int) (in
 }
 
 func (b *band) GetDownlinkChannel(channel int) (Channel, error) {
+	if channel < 0 {
+		return Channel{}, errors.New("lorawan/band: invalid channel")
+	}
+
 	if channel > len(b.downlinkChannels)-1 {
 		return Channel{}, errors.New("lorawan/band: invalid channel")
 	}
@@ -404,6 +416,10 @@ func (b *band) GetDownlinkChannel(channel int) (Channel, error) {
 }
 
 func (b *band) DisableUplinkChannelIndex(channel int) error {
+	if channel < 0 {
+		return errors.New("lorawan/band: channel does not exist")
+	}
+
 	if channel > len(b.uplinkChannels)-1 {
 		return errors.New("lorawan/band: channel does not exist")
 	}
@@ -412,6 +428,10 @@ func (b *band) DisableUplinkChannelIndex(channel int) error {
 }
 
 func (b *band) EnableUplinkChannelIndex(channel int) error {
+	if channel < 0 {
+		return errors.New("lorawan/band: channel does not exist")
+	}
+
 	if channel > len(b.uplinkChannels)-1 {
 		return errors.New("lorawan/band: channel does not exist")
 	}
